@@ -26,8 +26,8 @@ PyCount(a, b, c, n) == LET s == PyStart(a, n)  e == PyStop(b, n)  st == PyStep(c
                        IN IF e > s THEN (e - s + st - 1) \div st ELSE 0
 PySlice(a, b, c, n) == [i \in 1..PyCount(a, b, c, n) |-> PyStart(a, n) + (i - 1) * PyStep(c)]
 
-(* Python slice semantics for EITHER sign of the step (slice.indices): the operators above are the step >= 1 case, which is
-   all that the selector property (C15) quantifies over; frame-array population (C04) takes "every slice". *)
+(* Python slice semantics for EITHER sign of the step (slice.indices): the operators above are the step >= 1 case.  The
+   selector property (C15) and frame-array population (C04) take "every slice", so both are judged with PySliceAny. *)
 ClampNeg(v, n, dflt) == IF v = NoneV THEN dflt
                         ELSE IF v < 0 THEN (IF v + n < 0 THEN -1 ELSE v + n)
                         ELSE IF v >= n THEN n - 1 ELSE v
@@ -36,6 +36,8 @@ PySliceAny(a, b, c, n) ==
     ELSE LET s == ClampNeg(a, n, n - 1)  e == ClampNeg(b, n, -1)  st == -c
              k == IF s > e THEN (s - e + st - 1) \div st ELSE 0
          IN [i \in 1..k |-> s - (i - 1) * st]
+PyCountAny(a, b, c, n) == Len(PySliceAny(a, b, c, n))
+Steps == (-MaxN..MaxN) \ {0}
 
 (* Abstract: what the property says a sample of N out of n is; idx is 0-based indices *)
 Min2(x, y) == IF x < y THEN x ELSE y
